@@ -36,6 +36,30 @@ Fixpoint read_name_loop (L : limits) (acc : bytes) (s : bytes) : res (bytes * by
     else read_name_loop L (b :: acc) r
   end.
 
+(* where the loop of ReadName stands when it gives up with "name too long" (ReadDict goes on
+   from there: it takes any error of ReadName for the end of the dictionary) *)
+Fixpoint read_name_loop_stop (L : limits) (acc : bytes) (s : bytes) : bytes :=
+  match s with
+  | [] => []
+  | b :: r =>
+    if max_name L <=? blen acc then s
+    else if b =? cHASH then
+      match r with
+      | h :: l :: r' =>
+        if is_hex h && is_hex l then read_name_loop_stop L ((16 * hex_val h + hex_val l) mod 256 :: acc) r'
+        else read_name_loop_stop L (cHASH :: acc) r
+      | _ => read_name_loop_stop L (cHASH :: acc) r
+      end
+    else if negb (is_regular b) then s
+    else read_name_loop_stop L (b :: acc) r
+  end.
+(* the position after a failed ReadName: nothing is consumed unless the "/" was there *)
+Definition read_name_stop (L : limits) (s : bytes) : bytes :=
+  match s with
+  | b :: r => if b =? cSLASH then read_name_loop_stop L [] r else s
+  | [] => s
+  end.
+
 (* ReadName: SkipString("/") then the loop *)
 Definition read_name (L : limits) (s : bytes) : res (bytes * bytes) :=
   match s with
